@@ -10,6 +10,8 @@ import (
 	"time"
 
 	gnmi "github.com/openconfig/gnmi/proto/gnmi"
+	"github.com/sdcio/cache/proto/cachepb"
+	"github.com/sdcio/data-server/pkg/cache"
 	"github.com/sdcio/data-server/pkg/config"
 	"github.com/sdcio/data-server/pkg/datastore"
 	"github.com/sdcio/data-server/pkg/server"
@@ -88,7 +90,7 @@ func (c *c12) NumCases(tier string) int {
 }
 func (c *c12) Exhaustive(tier string) bool { return tier == "quick" }
 func (c *c12) Rule() string {
-	return "cases = the cross product (enumerated completely in the quick tier) of the leaf types of the verification schema (int8..int64, uint8..uint64, decimal64 with fraction-digits 1/2/18, boolean, empty, string, enumeration, identityref over two modules, two unions, bits, binary, leafref, typedef, and a leaf-list of each scalar kind) x boundary values (min, max, 0, -1, 2^63, 2^64-1, fractional/negative decimals, every enum/identity/union member) x input form {typed value, string, inside a JSON document, inside a JSON_IETF document}; the thorough tier adds PRNG interior values. Each case is one transaction on a fresh datastore; every place the value shows up - proto typed value, gNMI typed value (utils.ToGNMITypedValue), JSON, JSON_IETF, XML text at the device, the stored intended and running value, GetData in STRING/PROTO/JSON/JSON_IETF - is mapped by an independent per-type canonicaliser (math/big) to a datum and compared with the datum supplied; then the same datum in another representation must be a no-op and an adjacent different datum must be an update. distinct = (leaf, value, form); non-trivial = every case (each observes >= 8 representations)"
+	return "cases = the cross product (enumerated completely in the quick tier) of the leaf types of the verification schema (int8..int64, uint8..uint64, decimal64 with fraction-digits 1/2/18, boolean, empty, string, enumeration, identityref over two modules, two unions, bits, binary, leafref, typedef, and a leaf-list of each scalar kind) x boundary values (min, max, 0, -1, 2^63, 2^64-1, fractional/negative decimals, every enum/identity/union member) x input form {typed value, string, inside a JSON document, inside a JSON_IETF document}; the thorough tier adds PRNG interior values. Each case is one transaction on a fresh datastore; every place the value shows up - proto typed value, gNMI typed value (utils.ToGNMITypedValue), JSON, JSON_IETF, XML text at the device, the stored intended and running value, GetData in STRING/PROTO/JSON/JSON_IETF - is mapped by an independent per-type canonicaliser (math/big) to a datum and compared with the datum supplied; then the same datum in another representation must be a no-op, and an adjacent different datum as well as (decimal64) the datum with the same digits and the decimal point shifted by one place must be an update. distinct = (leaf, value, form); non-trivial = every case (each observes >= 8 representations)"
 }
 func (c *c12) Assumptions() []string {
 	return []string{
@@ -529,38 +531,130 @@ func (c *c12) RunCase(w *core.Worker, idx int, seed uint64, res *core.CaseResult
 		_ = rsp2
 		res.Count("equal_pairs_checked", 1)
 	}
-	// an adjacent, different datum must reach the device as an update carrying exactly that datum
-	adj := c.adjacent(cs.leaf, cs.val)
-	if adj == "" || len(res.Findings) > 0 {
-		return
+	// what the running store holds for the supplied value (used below to let the device "drift" back to it)
+	cachePath := strings.Split(model.CachePath(model.Parse(leafPath)), ",")
+	var storedVal []byte
+	for _, u := range c.h.env.Cache.Read(ctx, run.ds.Name, &cache.Opts{Store: cachepb.Store_CONFIG}, [][]string{cachePath}, 0) {
+		if strings.Join(u.GetPath(), ",") == strings.Join(cachePath, ",") {
+			storedVal = u.Bytes()
+		}
 	}
-	wantAdj, err := c.canon(cs.leaf, adj)
-	if err != nil || wantAdj == want {
-		return
-	}
-	req3 := &sdcpb.TransactionIntent{Intent: "oa", Priority: 10, Update: []*sdcpb.Update{c.mkUpdate(cs.leaf, adj, cs.form)}}
-	before = run.ds.Dev.NumSets()
-	_, err, panicked = set("t3", req3)
-	if panicked || err != nil {
-		return
-	}
-	run.ds.TransactionConfirm(ctx, "t3")
-	sent := ""
-	for i, r := range run.ds.Dev.AllSets() {
-		if i >= before {
-			for _, u := range r.Updates {
-				if model.FromPb(u.GetPath()).String() == leafPath {
-					sent = model.TvString(u.GetValue())
+	// different data must compare different: an adjacent datum, and (decimal64) the datum with the same digits but the
+	// decimal point one place further right or left, must reach the device as an update carrying exactly that datum
+	cur := want
+	for n, other := range []string{c.adjacent(cs.leaf, cs.val), c.shifted(cs.leaf, cs.val)} {
+		if other == "" || len(res.Findings) > 0 {
+			continue
+		}
+		wantOther, err := c.canon(cs.leaf, other)
+		if err != nil || wantOther == cur {
+			continue
+		}
+		req3 := &sdcpb.TransactionIntent{Intent: "oa", Priority: 10, Update: []*sdcpb.Update{c.mkUpdate(cs.leaf, other, cs.form)}}
+		before = run.ds.Dev.NumSets()
+		id := fmt.Sprintf("t3%d", n)
+		_, err, panicked = set(id, req3)
+		if panicked || err != nil {
+			return
+		}
+		run.ds.TransactionConfirm(ctx, id)
+		sent := ""
+		for i, r := range run.ds.Dev.AllSets() {
+			if i >= before {
+				for _, u := range r.Updates {
+					if model.FromPb(u.GetPath()).String() == leafPath {
+						sent = model.TvString(u.GetValue())
+					}
 				}
 			}
 		}
+		res.Count("different_pairs_checked", 1)
+		kind := []string{"adjacent", "point-shifted"}[n]
+		if sent == "" {
+			res.Violate("C12/different-data-compare-equal/"+tkey, "%s: changed to the %s value %q, the server sends no update for the leaf", desc, kind, other)
+		} else if got, err := c.canon(cs.leaf, sent); err != nil || got != wantOther {
+			res.Violate("C12/"+kind+"-value-not-delivered/"+tkey, "%s: changed to %q, the device received %q", desc, other, sent)
+		}
+		cur = wantOther
+		// the device drifts back to the first value (the running store says so): re-applying the unchanged intent must
+		// notice that running differs from the intended value and send the intended value again
+		if storedVal != nil && len(res.Findings) == 0 {
+			if err := c.h.env.Cache.Modify(ctx, run.ds.Name, &cache.Opts{Store: cachepb.Store_CONFIG}, nil, []*cache.Update{cache.NewUpdate(cachePath, storedVal, 0, "", 0)}); err != nil {
+				res.Inconclusive("C12/drift-setup", "%v", err)
+				return
+			}
+			before = run.ds.Dev.NumSets()
+			id := fmt.Sprintf("t4%d", n)
+			_, err, panicked = set(id, req3)
+			if panicked || err != nil {
+				return
+			}
+			run.ds.TransactionConfirm(ctx, id)
+			sent := ""
+			for i, r := range run.ds.Dev.AllSets() {
+				if i >= before {
+					for _, u := range r.Updates {
+						if model.FromPb(u.GetPath()).String() == leafPath {
+							sent = model.TvString(u.GetValue())
+						}
+					}
+				}
+			}
+			res.Count("drift_pairs_checked", 1)
+			if sent == "" {
+				res.Violate("C12/different-data-compare-equal/"+tkey, "%s: intent now says the %s value %q, the running store was set back to %q (device drift); re-applying the intent sends nothing: the two values compare equal", desc, kind, other, cs.val)
+			} else if got, err := c.canon(cs.leaf, sent); err != nil || got != wantOther {
+				res.Violate("C12/"+kind+"-value-not-delivered/"+tkey, "%s: after drift the device received %q instead of %q", desc, sent, other)
+			}
+		}
 	}
-	res.Count("different_pairs_checked", 1)
-	if sent == "" {
-		res.Violate("C12/different-data-compare-equal/"+tkey, "%s: changed to the adjacent value %q, the server sends no update for the leaf", desc, adj)
-	} else if got, err := c.canon(cs.leaf, sent); err != nil || got != wantAdj {
-		res.Violate("C12/adjacent-value-not-delivered/"+tkey, "%s: changed to %q, the device received %q", desc, adj, sent)
+}
+
+// shifted returns, for decimal64 values, the value with the same digits and the decimal point moved by one place
+// (x10, or /10 if x10 leaves the range), "" if neither is a valid value of the type or the value is 0.
+func (c *c12) shifted(leaf, val string) string {
+	t := model.LeafTypes[leaf]
+	if isLL(leaf) {
+		return ""
 	}
+	fd := 0
+	switch t.Kind {
+	case "decimal64":
+		fd = t.FD
+	case "union":
+		found := false
+		for _, m := range t.Union {
+			if _, err := model.Canon(m, val); err == nil {
+				if m.Kind != "decimal64" {
+					return ""
+				}
+				fd, found = m.FD, true
+				break
+			}
+		}
+		if !found {
+			return ""
+		}
+	default:
+		return ""
+	}
+	r, ok := new(big.Rat).SetString(val)
+	if !ok || r.Sign() == 0 {
+		return ""
+	}
+	for _, f := range []*big.Rat{big.NewRat(10, 1), big.NewRat(1, 10)} {
+		cand := model.RatString(new(big.Rat).Mul(r, f))
+		if _, err := model.Canon(model.TypeDef{Kind: "decimal64", FD: fd}, cand); err == nil {
+			if t.Kind == "union" {
+				// must still select the decimal member
+				if cc, err := model.Canon(t, cand); err != nil || !strings.HasPrefix(cc, "decimal64:") {
+					continue
+				}
+			}
+			return cand
+		}
+	}
+	return ""
 }
 
 // adjacent returns a valid value next to val ("" if the type has no notion of adjacency here).
